@@ -459,6 +459,7 @@ class C10(Profile):
             effective = 0
             for i, step in enumerate(case['steps']):
                 cmds = ctx.run_step(step, i)
+                ctx.quiesce()       # a stalled lock may outlast the horizon
                 for act, cmd in zip(step['actions'], cmds):
                     if cmd is not None and act.get('interferer'):
                         if not interfere(ctx, model, act, cmd):
